@@ -1,10 +1,11 @@
 #!/bin/bash
 # tools/verify_seed.sh <id> <demo-target-relative-path> <test-run-regex> <pkgs-to-test...>
+# (SEED_ROUND=2 SEED_SUFFIX=b: second round, /tmp/wt2/<id>, /tmp/seed2/<id> -> /verif/seeded/<id>b)
 # Confirms a seeded change in its scratch worktree /tmp/wt/<id>: existing tests of the given
 # packages pass with the change; the demo fails with it and passes without it.
 set -u
 id="$1"; target="$2"; rx="$3"; shift 3
-wt=/tmp/wt/$id; sd=/tmp/seed/$id; out=/verif/seeded/$id
+wt=/tmp/wt${SEED_ROUND:-}/$id; sd=/tmp/seed${SEED_ROUND:-}/$id; out=/verif/seeded/$id${SEED_SUFFIX:-}
 mkdir -p "$out"; cp "$sd/patch.diff" "$sd/meta.json" "$out/" 2>/dev/null; cp "$sd/demo_test.go" "$out/demo_test.go.txt"
 export GOFLAGS=-mod=mod GOPROXY=off GOSUMDB=off GOTOOLCHAIN=local
 cd "$wt" || exit 2
